@@ -1,4 +1,6 @@
 """C04 -- scopes own what they create; disposal is complete, exactly-once and leak-free (DESIGN.md 5.C04)."""
+import os
+import arena
 import rcheck
 import reactive_gen
 
@@ -182,10 +184,10 @@ def item_scopes():
 
 def main(argv):
     return rcheck.run(
-        PID, argv, module="C04", theorems=["C04_program_final_state", "C04_dispose_not_alive", "C04_dispose_leak_free", "C04_dispose_no_edges",
+        PID, argv, module="C04+C04a", theorems=["C04a_removed_never_alive", "C04a_drained_never_alive", "C04a_keys_fresh", "C04a_arena_refines_set", "C04a_free_list_complete", "C04a_fresh_arena_resurrects", "C04a_odd_rems_needed", "C04a_driver_is_history", "C04a_driver_keys_distinct", "C04a_driver_dead_stays_dead", "C04a_driver_reinit_kills", "C04a_driver_new_root_alive", "C04_program_final_state", "C04_dispose_not_alive", "C04_dispose_leak_free", "C04_dispose_no_edges",
                                         "C04_dispose_cleanups_exact", "C04_cleanups_conserved", "C04_disposed_node_stays_clean", "C04_disposed_by_cleanup_not_rerun", "C04_rerun_iff_survived"], gen=gen, oracle=lambda prog, steps: rcheck.ownership_failures(prog, steps) + rcheck.destroyed_runs_again(prog, steps), nontrivial=nontrivial,
         rule=("random ownership trees (scopes, effects creating effects/memos/signals/cleanups, run_in) x interleavings of "
               "re-runs, explicit disposals (also from callbacks and cleanups), closed by disposal of the root; non-trivial = "
               ">= 2 cleanups ran and some node was destroyed before the root disposal; distinct = distinct program text"),
         assumptions=["mapped-list item scopes are outside the scenario language: they are judged here through harness/list-driver with C07's oracle (ownership clauses), and proved on the model in C07 (C07_keyed_history)"],
-        extra_obligations=item_scopes)
+        extra_obligations=lambda: item_scopes() + arena.obligations(os.environ.get('VERIF_TIER', 'quick') if '--tier' not in argv else argv[argv.index('--tier') + 1], int(os.environ.get('VERIF_SEED', '0') or 0)))
